@@ -3,6 +3,10 @@
 import json
 TX_NOTE = "Trusted: SimNet (stream-level model of one QUIC connection, semantics in DESIGN.md 2.4) instead of quic-go; the app shell around the engines is a stub (sender closes with code 0 on return, receiver exits without closing); the go/ast yield generator; testing/synctest; one fake clock for both nodes."
 checks = {
+ "C12": dict(level="exploration", design="3/C12",
+   text="The real SnapshotSender admission code (handleEnvelope, handlePeerJoined, handleManifestAccept, handlePeerLeft, maybeStartTransfers, runTransfer, cleanup) is driven by seeded event scripts over 1-5 receivers (join, repeated accept, leave, rejoin, transfer success/failure, cleanup ticks, clock jump past the TTL) for max-receivers 1-3, with a simulated transfer function, under seeded schedules over the generated yield points. In half of the runs the event loop is starved so that every event meets a quiet sender and the queue and the set of running transfers are compared with a sequential reference admission model after every event; in the other half events overlap with the aftermath of earlier ones and interleaving-robust invariants are judged: never more than max-receivers live transfers, no receiver both queued and holding a slot or queued with a final status, no never-departed receiver started with a cancelled context, and in the final quiet state no idle slot while the queue is non-empty and active map = running transfers.",
+   note="transferFn, the signaling connection and the event source are stubs; the bodies of the real transfer functions do not run here. The generated yield points and testing/synctest are trusted.",
+   technique="deterministic simulation: seeded schedules over generated yield points, sequential reference model checked at quiescent points"),
  "C15": dict(level="exploration", design="3/C15",
    text="A healthy small transfer is recorded in the simulator; its transcript is mutated (truncation, boundary values in length/count/index fields, wrong magic, unknown or swapped record types, duplicated/dropped/inserted ranges, absurd manifest/bitmap/chunk-size/frame lengths) and replayed by a scripted peer against the real receiver or the real sender with seeded segmentation and schedules; the script ends its input (FIN on every stream, optionally closing the connection). Oracle: no panic, no death of the process (each worker runs under a 3 GiB address-space limit; a fatal out-of-memory is attributed to the run in progress), the target returns within 15 simulated minutes of the end of input, Go TotalAlloc growth <= 64 x bytes received + 48 MiB, and a receiver that reports success after data-stream-only mutations holds the identical tree.",
    note="Mutation is plain seeded mutation of a recorded transcript; the simulator contributes end-of-input semantics, segmentation, the fake clock for hang detection and crash attribution. SimNet instead of quic-go. One genuine defect is listed as known finding (chunk buffers sized by the peer-announced chunk size).",
